@@ -39,7 +39,7 @@ inductive Val
   | list (xs : List Int)
   deriving DecidableEq, Repr, Inhabited
 
-inductive Ty | int | str | any
+inductive Ty | int | str | any | dict   -- `dict`: `Dict[str, Any]` of the overflow attribute (no `Val` conforms)
   deriving DecidableEq, Repr, Inhabited
 
 /-- `check_type(value, type)` for the scalar annotations of the grammar. -/
@@ -143,7 +143,9 @@ def dictUpdate {β : Type} (d e : List (Name × β)) : List (Name × β) :=
 
 /-- `d.pop(a)` (the remaining dict) -/
 def dictErase {β : Type} (d : List (Name × β)) (a : Name) : List (Name × β) :=
-  d.filter (fun p => p.1 != a)
+  match d with
+  | [] => []
+  | (k, w) :: r => if k = a then dictErase r a else (k, w) :: dictErase r a
 
 def Env.ty (env : Env) (a : Name) : Ty := (assoc env.tys a).getD .any
 def Env.prep (env : Env) (a : Name) : Nat := (assoc env.preps a).getD 0
@@ -270,6 +272,7 @@ def St.emit (s : St) (e : Ev) : St := { s with trace := s.trace ++ [e] }
 def setAttr (env : Env) (s : St) (a : Name) (v : Val) : Res :=
   let v' := applyPrep (env.prep a) v
   if v' = .missing then (s, none)
+  else if env.ty a = .dict then (s, some .typeError)   -- collection preparation rejects it before `mutate_attr`
   else
     let s' := s.emit (.set a v')
     if conforms (env.ty a) v' then ({ s' with fields := dictSet s'.fields a v' }, none)
@@ -291,6 +294,20 @@ def kwGet (kw : Kw) (a : Name) : Val := (assoc kw a).getD .missing
 def validNames (m : Meta) : List Name :=
   (m.attrs.filter (fun p => p.2.init && some p.1 != m.key && some p.1 != m.ovf)).map (·.1)
 
+/-- `validate_attrs(kwargs)` fails (it is only compiled in when there is no overflow attribute). -/
+def invalidKw (m : Meta) (kw : Kw) : Bool :=
+  m.ovf.isNone && kw.any (fun p => !(validNames m).contains p.1)
+
+/-- The value bound to the key parameter `kn[=MISSING]`. -/
+def keyValue (m : Meta) (kn : Name) (pos : List Val) (kw : Kw) : Except Err Val :=
+  match pos with
+  | v :: _ => if hasName kw kn then .error .typeError else .ok v      -- "multiple values for argument"
+  | [] => match assoc kw kn with
+    | some v => .ok v
+    | none =>
+      let sp := (assoc m.attrs kn).getD { default := .missing, factory := .missing, init := true, owner := m.owner }
+      if sp.hasDefault then .ok .missing else .error .typeError        -- "missing required argument"
+
 /-- Binding of a call `k.__init__(self, *pos, **kw)` to the generated signature
 `(self[, key[=MISSING]], **kwargs)` followed by `validate_attrs`; the result is the
 `kwargs` handed to `InitMethod.init`. All failures are `TypeError`. -/
@@ -298,25 +315,15 @@ def bindGenerated (m : Meta) (pos : List Val) (kw : Kw) : Except Err Kw :=
   match m.key with
   | none =>
     if pos.length > 0 then .error .typeError
-    else if m.ovf.isNone && kw.any (fun p => !(validNames m).contains p.1) then .error .typeError
+    else if invalidKw m kw then .error .typeError
     else .ok kw
   | some kn =>
     if pos.length > 1 then .error .typeError
-    else
-      let rest := dictErase kw kn
-      let keyVal : Except Err Val :=
-        match pos with
-        | v :: _ => if hasName kw kn then .error .typeError else .ok v
-        | [] => match assoc kw kn with
-          | some v => .ok v
-          | none =>
-            let sp := (assoc m.attrs kn).getD { default := .missing, factory := .missing, init := true, owner := m.owner }
-            if sp.hasDefault then .ok .missing else .error .typeError
-      match keyVal with
+    else match keyValue m kn pos kw with
       | .error e => .error e
       | .ok v =>
-        if m.ovf.isNone && rest.any (fun p => !(validNames m).contains p.1) then .error .typeError
-        else .ok ((kn, v) :: rest)
+        if invalidKw m (dictErase kw kn) then .error .typeError
+        else .ok ((kn, v) :: dictErase kw kn)
 
 /-- The loop over `instance_metadata.attrs` of `InitMethod.init` for `spec_cls = k`. -/
 def ownLoop (env : Env) (im : Meta) (mroC : List Cls) (k : Cls) (kw : Kw) :
@@ -400,12 +407,18 @@ def buildPk (cs : List ClsInfo) (im : Meta) (mroC : List Cls) (p : Cls) :
     | some isp =>
       if isp.owner != p then buildPk cs im mroC p r kw pk
       else if !isp.init then buildPk cs im mroC p r kw pk
+      else if some a == im.ovf then buildPk cs im mroC p r kw pk   -- collected once by the owner's overflow step
       else match assoc kw a with
         | some v => buildPk cs im mroC p r (dictErase kw a) (dictSet pk a v)
         | none =>
           let d := lookupDefault cs isp a mroC
           if d != .missing then buildPk cs im mroC p r kw (dictSet pk a d)
           else buildPk cs im mroC p r kw pk
+
+/-- `if parent_metadata.key and parent_metadata.key not in parent_kwargs: parent_kwargs[key] = MISSING` -/
+def addKeyMissing (pk : Kw) : Option Name → Kw
+  | some kn => if hasName pk kn then pk else dictSet pk kn .missing
+  | none => pk
 
 /-- `for parent in reversed(spec_cls.mro()[1:])` -/
 def parentsLoop (env : Env) (im : Meta) (mroC : List Cls) : List Cls → Kw → St → Kw × Res
@@ -417,12 +430,13 @@ def parentsLoop (env : Env) (im : Meta) (mroC : List Cls) : List Cls → Kw → 
       match buildPk env.classes im mroC p pm.attrs kw [] with
       | .error e => (kw, (s, some e))
       | .ok (kw', pk) =>
-        let pk := match pm.key with
-          | some kn => if hasName pk kn then pk else dictSet pk kn .missing
-          | none => pk
-        match callParent env im mroC p pk s with
+        match callParent env im mroC p (addKeyMissing pk pm.key) s with
         | (s', none) => parentsLoop env im mroC ps kw' s'
         | r => (kw', r)
+
+/-- `getattr(type(self), "__post_init__", None)`: the first class of the instance's MRO that defines the hook. -/
+def postOf (env : Env) (mroC : List Cls) : Option Cls :=
+  mroC.find? (fun k => ((findCls env.classes k).map (·.cdef.post)).getD false)
 
 /-- `InitMethod.init(spec_cls = k, self, **kwargs)` when `k` is the instance metadata's owner. -/
 def initOwner (env : Env) (im : Meta) (mroC : List Cls) (k : ClsInfo) (kwargs : Kw) (s : St) : Res :=
@@ -441,7 +455,7 @@ def initOwner (env : Env) (im : Meta) (mroC : List Cls) (k : ClsInfo) (kwargs : 
               | none => true
               | some sp => !sp.init || p.1 == o)) }
         | none => s''
-      let s4 := match im.post with
+      let s4 := match postOf env mroC with
         | some pc => s3.emit (.post pc)
         | none => s3
       (s4, none)
@@ -467,5 +481,112 @@ def attrValue (env : Env) (c : Cls) (s : St) (a : Name) : Val :=
   match assoc s.fields a with
   | some v => v
   | none => classGetattr env.classes (mroOf env.classes c) a
+
+/-! ### Spec and well-formedness -/
+
+/-- Body slot of attribute `a` as declared in class `k`. -/
+def declSlot (cs : List ClsInfo) (k : Cls) (a : Name) : Option Slot :=
+  (findCls cs k).bind (fun i => assoc (bodyDict i.cdef) a)
+
+/-- The default a declaration gives (`some missing` = declared, explicitly without default). -/
+def declDefault : Option Slot → Option Val
+  | some (.lit v) => some v
+  | some (.attrObj d f _) => some (if f != .missing then f else d)
+  | none => none
+
+/-- SPEC: the nearest default along an MRO — the first class whose body assigns the name. -/
+def nearestDefault (cs : List ClsInfo) (mro : List Cls) (a : Name) : Val :=
+  (mro.findSome? fun k => declDefault (declSlot cs k a)).getD .missing
+
+/-- The instance's spec class (whose constructor runs) and its metadata. -/
+def instInfo (env : Env) (c : Cls) : Option ClsInfo := firstSpecCls env.classes (mroOf env.classes c)
+def instMeta (env : Env) (c : Cls) : Option Meta := (instInfo env c).bind (·.«meta»)
+
+/-- Class `k` is decorated and its body declares `a` as a managed attribute (annotation, or overflow attribute). -/
+def declares (cs : List ClsInfo) (k : Cls) (a : Name) : Bool :=
+  match findCls cs k with
+  | some i => i.cdef.spec && (i.cdef.decls.any (fun d => d.name == a && d.ann) || i.cdef.ovfArg == some (some a))
+  | none => false
+
+/-- When the default lookup reaches the owner, the Attr carries what the owner's body declares, or (for an
+annotation-only declaration) the nearest default of the rest of the MRO. -/
+def ownerClause (cs : List ClsInfo) (sp : AttrSpec) (a : Name) (rest : List Cls) : Bool :=
+  match declSlot cs sp.owner a with
+  | some (.attrObj d f _) => sp.default == d && sp.factory == f
+  | some (.lit v) => sp.default == v && sp.factory == .missing
+  | none => sp.factory == .missing && sp.default == nearestDefault cs rest a
+
+/-- Per-attribute clauses of `wfCall`. -/
+def wfAttr (strict : Bool) (cs : List ClsInfo) (mroC mroK : List Cls) (k0 : Cls) (p : Name × AttrSpec) : Bool :=
+  let a := p.1
+  let sp := p.2
+  let o := sp.owner
+  -- ownership is truthful: the owner is the class itself or a decorated ancestor that lists the attribute
+  (o == k0 || (mroK.tail.contains o &&
+      (match metaOf cs o with | some om => hasName om.attrs a | none => false))) &&
+  -- STRICT (what the open finding KF-C09-diamond-second-parent and the two readings violate):
+  -- the owner is the nearest declaring class along the MRO, whose `init` option the Attr carries
+  (!strict || (mroC.find? (fun kk => declares cs kk a) == some o)) &&
+  (!strict || (sp.init == (match declSlot cs o a with | some (.attrObj _ _ i) => i | _ => true))) &&
+  -- defaults are coherent with the declarations (only init-enabled attributes are resolved by the constructor)
+  (!strict || !sp.init || (
+    mroC.contains o &&
+    -- no declared factory is hidden in a class that precedes the owner
+    (mroC.takeWhile (· != o)).all (fun kk =>
+      match declSlot cs kk a with | some (.attrObj _ f _) => f == .missing | _ => true) &&
+    -- when the walk reaches the owner, the Attr carries what the owner's body (or the rest of the MRO) declares
+    (!(mroC.takeWhile (· != o)).all (fun kk => (declSlot cs kk a).isNone) ||
+      ownerClause cs sp a (mroC.dropWhile (· != o)).tail)))
+
+/-- The explicit, decidable well-formedness predicate of a call `c(...)` (structural clauses relating the
+bootstrapped metadata to the declared class table; evaluated by the driver for every generated call).
+`strictAttr` adds the per-attribute coherence clauses, `strictKey` the clause about the static key signature. -/
+def wfCallG (strictAttr strictKey : Bool) (env : Env) (c : Cls) : Bool :=
+  let cs := env.classes
+  let mroC := mroOf cs c
+  match instInfo env c with
+  | none => false
+  | some k =>
+    match k.«meta» with
+    | none => false
+    | some im =>
+      let k0 := k.cdef.name
+      let mroK := k.cdef.mro
+      im.owner == k0 && mroK.head? == some k0 &&
+      decide mroK.Nodup && decide mroC.Nodup &&
+      decide (im.attrs.map (·.1)).Nodup &&
+      decide (cs.map (·.cdef.name)).Nodup &&
+      -- every class of both MROs is in the table and its `__dict__` is its lifted body
+      (mroC ++ mroK).all (fun kk => match findCls cs kk with
+        | some i => i.dict == (bodyDict i.cdef).map (fun q => (q.1, q.2.lift))
+        | none => false) &&
+      -- the attributes of every decorated ancestor are known to the instance metadata
+      mroK.tail.all (fun p => match metaOf cs p with
+        | some pm => pm.owner == p && pm.attrs.all (fun q => hasName im.attrs q.1) &&
+                     decide (pm.attrs.map (·.1)).Nodup && (mroOf cs p).head? == some p
+        | none => true) &&
+      im.attrs.all (wfAttr strictAttr cs mroC mroK k0) &&
+      -- the key is a managed, init-enabled attribute other than the overflow attribute, and the static
+      -- signature agrees with the MRO about whether it has a default
+      (match im.key with
+       | none => true
+       | some kn => match assoc im.attrs kn with
+         | some sp => sp.init && im.ovf != some kn &&
+                      -- STRICT (what the open finding KF-C09-plain-subclass-key-default violates)
+                      (!strictKey || (sp.hasDefault == (nearestDefault cs mroC kn != .missing)))
+         | none => false)
+
+/-- Full well-formedness (hypothesis of the `_partial` theorems). -/
+def wfCall (env : Env) (c : Cls) : Bool := wfCallG true true env c
+/-- Well-formedness without the clauses that the two open findings (and the two readings) violate. -/
+def wfCore (env : Env) (c : Cls) : Bool := wfCallG false false env c
+
+/-- All constructors involved are generated ones (no hand-written `__init__` in the spec class's MRO). -/
+def allGenerated (env : Env) (c : Cls) : Bool :=
+  match instInfo env c with
+  | none => false
+  | some k => k.cdef.hand.isNone && k.cdef.mro.all (fun p => match findCls env.classes p with
+      | some i => i.cdef.hand.isNone
+      | none => true)
 
 end SpecVerif.C09
